@@ -167,3 +167,42 @@ package module
 //@   iface
 //@   trusted
 //@   pure
+
+// C07: block data and commit vote sets are immutable values; accessors are functions of the value
+//@ property C07
+//@ smt all (declare-fun blk_version (Iface) Int)
+//@ smt all (declare-fun blk_prev (Iface) BSeq)
+//@ smt all (declare-fun blk_ts (Iface) Int)
+//@ smt all (declare-fun blk_result (Iface) BSeq)
+//@ smt all (declare-fun blk_votes (Iface) Iface)
+//@ smt all (declare-fun cvs_ts (Iface) Int)
+//@ func (b BlockData) Version() (v)
+//@   iface
+//@   trusted
+//@   pure
+//@   ensures v == blk_version(b)
+//@ func (b BlockData) PrevID() (id)
+//@   iface
+//@   trusted
+//@   pure
+//@   ensures seq(id) == blk_prev(b)
+//@ func (b BlockData) Timestamp() (t)
+//@   iface
+//@   trusted
+//@   pure
+//@   ensures t == blk_ts(b)
+//@ func (b BlockData) Result() (r)
+//@   iface
+//@   trusted
+//@   pure
+//@   ensures seq(r) == blk_result(b)
+//@ func (b BlockData) Votes() (v)
+//@   iface
+//@   trusted
+//@   pure
+//@   ensures v == blk_votes(b)
+//@ func (v CommitVoteSet) Timestamp() (t)
+//@   iface
+//@   trusted
+//@   pure
+//@   ensures t == cvs_ts(v)
